@@ -324,6 +324,9 @@ class Interp:
                 return self.get_attr(base, e.attr, st, func, e)
             if isinstance(base, Arr) and e.attr == 'shape':
                 return Tup(base.shape) if base.shape else Opaque(U(e))
+            if isinstance(base, Opaque) and e.attr in getattr(self.G, '_nested_func_stores', {}):
+                # function-valued attribute stored on a handle (file.read_range = utils.read_range_file)
+                return FuncVal([(t, False) for t in self.G._nested_func_stores[e.attr]], None, U(e))
             r = self.P.resolve_name(func.module, U(e)) if func is not None else None
             if isinstance(r, tuple) and r[0] == 'const' and isinstance(r[1], (int, float)):
                 return C(Fraction(r[1]))
@@ -995,4 +998,6 @@ def same(a, b):
         return len(a.elts) == len(b.elts) and all(same(x, y) for x, y in zip(a.elts, b.elts))
     if isinstance(a, Opaque) and isinstance(b, Opaque):
         return a.text == b.text
+    if isinstance(a, Bytes) and isinstance(b, Bytes):
+        return same(a.offset, b.offset) and same(a.length, b.length)
     return a is b
